@@ -41,7 +41,7 @@ type FuncContract struct {
 	Pkg      string // package path (filled by loader)
 	Props    []string
 	Clauses  []*Clause
-	Trusted  bool   // contract is assumed at call sites and never checked against a body
+	Trusted  bool // contract is assumed at call sites and never checked against a body
 	Inline   []string
 	Arith    string // "bv" (default)
 	Opts     map[string]string
@@ -49,6 +49,14 @@ type FuncContract struct {
 	Line     int
 	Modifies []string // raw modifies specs
 	Locks    []*LockDecl
+	Effects  map[string][]string // package path -> allowed callee names
+	AtCall   []*AtCall
+}
+
+// AtCall: caller-side obligation at every call of a callee:  at_call os.MkdirAll requires label: expr
+type AtCall struct {
+	Callee string
+	C      *Clause
 }
 
 // LockDecl: monitor declaration  `lock T.f protects items` / `lock T.f invariant e`.
@@ -230,6 +238,35 @@ func ParseContractFile(path string) (*ContractFile, error) {
 			cur.Opts[k] = strings.TrimSpace(v)
 		case "modifies":
 			cur.Modifies = append(cur.Modifies, strings.TrimSpace(rest))
+		case "effects":
+			// effects os: Open, OpenFile, File.Close
+			i := strings.Index(rest, ":")
+			if i < 0 {
+				return nil, errf("effects needs 'pkg: names'")
+			}
+			if cur.Effects == nil {
+				cur.Effects = map[string][]string{}
+			}
+			pk := strings.TrimSpace(rest[:i])
+			for _, n := range strings.Split(rest[i+1:], ",") {
+				if n = strings.TrimSpace(n); n != "" {
+					cur.Effects[pk] = append(cur.Effects[pk], n)
+				}
+			}
+			if _, ok := cur.Effects[pk]; !ok {
+				cur.Effects[pk] = []string{}
+			}
+		case "at_call":
+			callee, r2 := splitWord(rest)
+			k2, r3 := splitWord(r2)
+			if k2 != "requires" {
+				return nil, errf("at_call <callee> requires [label:] expr")
+			}
+			c, err := parseClause("at_call", r3, path, rl.line)
+			if err != nil {
+				return nil, err
+			}
+			cur.AtCall = append(cur.AtCall, &AtCall{Callee: callee, C: c})
 		case "lock":
 			// lock T.f protects items | lock T.f invariant [label:] expr
 			tf, r2 := splitWord(rest)
@@ -297,6 +334,9 @@ func ParseContractFile(path string) (*ContractFile, error) {
 			for _, c := range l.Inv {
 				c.E = expandMacros(c.E, cf.Macros)
 			}
+		}
+		for _, a := range fc.AtCall {
+			a.C.E = expandMacros(a.C.E, cf.Macros)
 		}
 	}
 	for _, lm := range cf.Lemmas {
